@@ -112,7 +112,7 @@ def lis70(u):
 LIS_REF = {49: lis49, 50: lis50, 56: lis56, 66: lis66, 68: lis68, 70: lis70, 73: lis73, 77: lis77, 79: lis79}
 LIS_BITS = {49: 16, 50: 32, 56: 8, 66: 8, 68: 32, 70: 32, 73: 32, 77: 8, 79: 16}
 LIS_FLOAT = (49, 50, 68, 70)
-LIS_SIGNED_STRUCT = (49, 50, 56, 70, 73, 79)
+LIS_SIGNED_STRUCT = (49, 50, 56, 73, 79)     # STRUCT_RC_NN with a signed format (70 is '>I' since the fix)
 
 R68_MAX = lis68(0x7FFFFFFF)
 R68_MIN = lis68(0x80000000)                 # -2**127
